@@ -210,6 +210,90 @@ pub fn run(tier: Tier, seed: u64) -> i32 {
         }
     });
 
+    // ---------------- A2. collection sizes at the encoding's boundaries -----
+    // The packed description stores four collections (public inputs, scalar
+    // dictionary, selector-tuple dictionary, constraints) behind MessagePack
+    // length markers whose form changes at 15/16, and integers whose form
+    // changes at 127/128, 255/256 (and 65535/65536). A program is grown one
+    // row at a time; whenever the mirror codec reads a boundary count for any
+    // collection, both compilation routes are compared on that very program.
+    let boundary = |n: usize| matches!(n, 0 | 1 | 14 | 15 | 16 | 17 | 31 | 32 | 33 | 127 | 128 | 129 | 255 | 256 | 257);
+    let styles = tier.pick(3u64, 12u64);
+    par_cases(styles, threads(), |si| {
+        let mut rng = case_rng(seed, "C15.A2", si);
+        let mut b = Builder::new();
+        let max_rows = tier.pick(300usize, 600usize);
+        let mut seen: std::collections::BTreeSet<(u8, usize)> = Default::default();
+        while b.rows() < max_rows {
+            let r = rng.next_u32() as usize % b.nregs();
+            match si % 3 {
+                0 => {
+                    // one more public input, one repeated selector tuple
+                    let piv = if rng.next_u32() % 3 == 0 { BlsScalar::zero() } else { BlsScalar::from(7u64) };
+                    let one = BlsScalar::one();
+                    b.push(Op::AssertEqConst(1, one - piv, Pi::Const(piv))).unwrap();
+                }
+                1 => {
+                    // one more distinct selector tuple (and one or two fresh scalars:
+                    // on the ZERO register the solved q_c is 0, already in the dictionary)
+                    let r = if rng.next_u32() % 2 == 0 { 0 } else { r };
+                    let mut sel: [BlsScalar; 6] = [BlsScalar::zero(), rand_scalar(&mut rng), BlsScalar::zero(), BlsScalar::zero(), BlsScalar::zero(), BlsScalar::zero()];
+                    build::solve_qc(&mut sel, b.val(r), b.val(r), b.val(r), b.val(r), BlsScalar::zero());
+                    b.push(Op::Gate { s: sel, pi: Pi::None, w: [r, r, r, r] }).unwrap();
+                }
+                _ => {
+                    // repeated tuple over fresh witnesses, a public input now and then
+                    let x = b.witness(pool_scalar(&mut rng));
+                    let pi = if rng.next_u32() % 2 == 0 { Pi::Const(BlsScalar::zero()) } else { Pi::None };
+                    let mut sel: [BlsScalar; 6] = [BlsScalar::zero(), BlsScalar::one(), BlsScalar::zero(), BlsScalar::zero(), BlsScalar::zero(), BlsScalar::zero()];
+                    build::solve_qc(&mut sel, b.val(x), b.val(x), b.val(x), b.val(x), BlsScalar::zero());
+                    // keep the tuple repeated: q_c differs per row, so use the witness itself on both sides instead
+                    let _ = sel;
+                    b.push(Op::Gate { s: [BlsScalar::zero(), BlsScalar::one(), -BlsScalar::one(), BlsScalar::zero(), BlsScalar::zero(), BlsScalar::zero()], pi, w: [x, x, 0, 0] }).unwrap();
+                }
+            }
+            let prog = Arc::new(b.prog.clone());
+            let Ok(compressed) = common::compress(&prog) else {
+                ev.violation("C15:compress-failed:growth", json!({"rows": b.rows(), "style": si % 3}));
+                return;
+            };
+            let Some(cc0) = CC::from_compressed(&compressed) else {
+                ev.violation("C15:mirror-codec-cannot-read-valid-description", json!({"rows": b.rows(), "growth_style": si % 3}));
+                return;
+            };
+            let counts = [cc0.public_inputs.len(), cc0.scalars.len(), cc0.polynomials.len(), cc0.constraints.len()];
+            let names = ["public_inputs", "scalars", "polynomials", "constraints"];
+            let mut hit = Vec::new();
+            for (k, n) in counts.iter().enumerate() {
+                if boundary(*n) && seen.insert((k as u8, *n)) {
+                    hit.push(format!("{}={}", names[k], n));
+                    ev.set_insert(&format!("boundary_counts.{}", names[k]), *n);
+                }
+            }
+            if hit.is_empty() {
+                continue;
+            }
+            let rows = b.rows();
+            let pp = crate::util::pp(common::min_degree(rows));
+            let direct = common::compile(&pp, b"c15-growth", &prog).map(|c| (c.prover, c.verifier));
+            let viac = compile_compressed(&pp, b"c15-growth", &compressed);
+            let desc = json!({"part": "collection-size-boundary", "rows": rows, "growth_style": si % 3, "hit": hit, "counts": counts,
+                "direct": classify(&direct), "compressed": classify(&viac)});
+            ev.case(&desc, true);
+            ev.bucket("boundary_cases");
+            match (&direct, &viac) {
+                (Ok((p1, v1)), Ok((p2, v2))) => {
+                    if p1.to_bytes() != p2.to_bytes() || v1.to_bytes() != v2.to_bytes() {
+                        ev.violation("C15:keys-differ-at-collection-size-boundary", json!({"case": desc}));
+                    }
+                }
+                (Err(Fail::Panic(p)), _) | (_, Err(Fail::Panic(p))) => ev.violation(&format!("C15:panic:{}", panic_site(p)), json!({"case": desc, "panic": p})),
+                (Ok(_), Err(_)) => ev.violation(&format!("C15:valid-description-rejected-at-collection-size:{}", hit[0].split('=').next().unwrap_or("")), json!({"case": desc})),
+                _ => ev.violation("C15:routes-disagree-at-collection-size-boundary", json!({"case": desc})),
+            }
+        }
+    });
+
     // ---------------- B. hostile descriptions ------------------------------
     hostile(&ev, tier, seed);
 
@@ -217,6 +301,9 @@ pub fn run(tier: Tier, seed: u64) -> i32 {
     ev.floor("both routes Ok", ev.bucket_get("both_ok"), tier.pick(150, 2000));
     ev.floor("both routes Err", ev.bucket_get("both_err"), tier.pick(60, 800));
     ev.floor("capacities", ev.set_len("capacities") as u64, 6);
+    for name in ["public_inputs", "scalars", "polynomials", "constraints"] {
+        ev.floor(&format!("boundary sizes reached for the {name} collection"), ev.set_len(&format!("boundary_counts.{name}")) as u64, 12);
+    }
     ev.floor("accepted edited descriptions", ev.bucket_get("accepted_edited_description"), 10);
     ev.floor("hostile classes", ev.set_len("hostile_classes") as u64, 14);
     ev.floor("hostile rejected", ev.bucket_get("hostile.err"), tier.pick(100, 200));
